@@ -4,20 +4,30 @@ algorithms/{ssi,plscf,fdd}.py it emits which expression every PARAMETER of the c
 arguments are resolved through the callee's signature, local names through the straight-line assignments that
 precede the call, call results as `<callee>#<position>`), the names the results are unpacked into, and the
 `self.result.* / self.run_params.*` stores of the method with their position relative to the call.
-Output: lean/PyomaVerif/Generated/Wiring.lean (a list of `Site`s).  Regenerated on every run."""
+The same is done for the `plot_*` methods (calls of plot.stab_plot / cluster_plot / CMIF_plot ...).
+Besides the call sites it emits
+ * `classes`: per class of algorithms/{base,ssi,plscf,fdd}.py its base-class list, EVERY name bound in its body
+   (methods, class attributes; module-level `Cls.x = ...` patches are added to the class they patch), the
+   class-level `name = value` attributes and decorators / class keywords — so that "SSIcov has no run of its own
+   and inherits SSIdat's" is an obligation over the source, not a comment;
+ * `methods`: per run / mpe / mpe_from_plot / plot_* method the guard it starts with (`super().mpe(...)` or
+   `if not self.result: raise ValueError`), the guard's position in the numbering of the sites and stores, and the
+   statements in front of the guard that are more than a docstring or an alias of an argument.
+Output: lean/PyomaVerif/Generated/Wiring.lean.  Regenerated on every run."""
 import ast
 import copy
 import os
 
 ALG = ["ssi", "plscf", "fdd"]
-LIBS = {"ssi": "ssi", "plscf": "plscf", "fdd": "fdd", "gen": "gen"}
+LIBS = {"ssi": "ssi", "plscf": "plscf", "fdd": "fdd", "gen": "gen", "plot": "plot"}
+WALKED = ("run", "mpe", "mpe_from_plot")
 MAXLEN = 160
 
 
 def _sig(functions_dir):
     """callee -> list of parameter names"""
     out = {}
-    for mod in ("ssi", "plscf", "fdd", "gen"):
+    for mod in ("ssi", "plscf", "fdd", "gen", "plot"):
         tree = ast.parse(open(os.path.join(functions_dir, f"{mod}.py")).read())
         for n in tree.body:
             if isinstance(n, ast.FunctionDef):
@@ -75,6 +85,39 @@ def simple(expr):
     return not any(isinstance(n, (ast.Call, ast.Lambda, ast.ListComp, ast.DictComp, ast.GeneratorExp)) for n in ast.walk(expr))
 
 
+def guard_of(st):
+    """(kind, arg) if the statement is a guard: `super().<m>(...)` -> ("super", m);
+    `if <test>: raise <Exc>(...)` (one raise, no else) -> ("raise", "if <test>: raise <Exc>")"""
+    if isinstance(st, ast.Expr) and isinstance(st.value, ast.Call):
+        f = st.value.func
+        if isinstance(f, ast.Attribute) and isinstance(f.value, ast.Call) and isinstance(f.value.func, ast.Name) \
+                and f.value.func.id == "super" and not f.value.args and not f.value.keywords:
+            return ("super", f.attr)
+    if isinstance(st, ast.If) and not st.orelse and len(st.body) == 1 and isinstance(st.body[0], ast.Raise) and st.body[0].exc is not None:
+        exc = st.body[0].exc
+        name = exc.func if isinstance(exc, ast.Call) else exc
+        return ("raise", f"if {ast.unparse(st.test)}: raise {ast.unparse(name)}")
+    return None
+
+
+def harmless_before_guard(st):
+    """statements that may precede the guard without storing or reading the state: the docstring, `pass`, and a
+    local alias `name = <expression without calls that does not mention self>`"""
+    if isinstance(st, ast.Pass):
+        return True
+    if isinstance(st, ast.Expr) and isinstance(st.value, ast.Constant) and isinstance(st.value.value, str):
+        return True
+    if isinstance(st, ast.Assign) and all(isinstance(t, ast.Name) for t in st.targets) and simple(st.value) \
+            and not any(isinstance(n, ast.Name) and n.id == "self" for n in ast.walk(st.value)):
+        return True
+    return False
+
+
+def short(st):
+    t = ast.unparse(st).replace("\n", " ; ")
+    return t if len(t) <= 100 else t[:100] + "..."
+
+
 class Walker:
     def __init__(self, sigs, cls, method, helpers=None):
         self.sigs, self.cls, self.method = sigs, cls, method
@@ -85,6 +128,28 @@ class Walker:
         self.counter = {}
         self.stores = []  # (target string, canonical value, position index)
         self.pos = 0
+        self.guard = ("", "", 0)  # kind, argument, position
+        self.pre = []  # statements in front of the guard that are not harmless
+
+    def top(self, stmts):
+        """the method body: as `body`, but the first top-level guard statement gets a position of its own"""
+        env = {}
+        seen = False
+        front = []
+        for st in stmts:
+            g = guard_of(st) if not seen else None
+            if g is not None:
+                seen = True
+                self.pos += 1
+                self.guard = (g[0], g[1], self.pos)
+                self.pre = [short(x) for x in front if not harmless_before_guard(x)]
+                if g[0] == "super":  # the arguments of the call may still contain library calls
+                    env = self.stmt(st, env)
+                continue
+            if not seen:
+                front.append(st)
+            env = self.stmt(st, env)
+        return env
 
     def body(self, stmts, env):
         for st in stmts:
@@ -293,11 +358,56 @@ def translate(repo):
                 for m in c.body:
                     if isinstance(m, ast.FunctionDef) and m.name == "__init__":
                         CLASS_SIGS[c.name] = [x.arg for x in m.args.posonlyargs + m.args.args][1:] + [x.arg for x in m.args.kwonlyargs]
-    sites, stores = [], []
-    for mod in ALG:
+    sites, stores, classes_out, methods_out = [], [], [], []
+
+    def base_name(b):
+        if isinstance(b, ast.Subscript):
+            b = b.value
+        return b.id if isinstance(b, ast.Name) else ast.unparse(b)
+
+    def bound_names(c):
+        """every name the class body binds (a later lookup `self.<name>` finds it in this class)"""
+        out = []
+        for m in c.body:
+            if isinstance(m, (ast.FunctionDef, ast.AsyncFunctionDef, ast.ClassDef)):
+                out.append(m.name)
+            elif isinstance(m, ast.Assign):
+                out += [n.id for t in m.targets for n in ast.walk(t) if isinstance(n, ast.Name)]
+            elif isinstance(m, ast.AnnAssign) and m.value is not None and isinstance(m.target, ast.Name):
+                out.append(m.target.id)
+            elif isinstance(m, ast.AugAssign) and isinstance(m.target, ast.Name):
+                out.append(m.target.id)
+            elif isinstance(m, (ast.Import, ast.ImportFrom)):
+                out += [(a.asname or a.name).split(".")[0] for a in m.names]
+            elif not (isinstance(m, ast.Expr) and isinstance(m.value, ast.Constant)) and not isinstance(m, (ast.Pass, ast.AnnAssign)):
+                out.append("<" + type(m).__name__ + ">")  # if / for / try / with in a class body: not understood
+        return out
+
+    def class_attrs(c):
+        out = []
+        for m in c.body:
+            if isinstance(m, ast.Assign) and len(m.targets) == 1 and isinstance(m.targets[0], ast.Name):
+                out.append((m.targets[0].id, canon(m.value, {})))
+            elif isinstance(m, ast.AnnAssign) and m.value is not None and isinstance(m.target, ast.Name):
+                out.append((m.target.id, canon(m.value, {})))
+        return out
+
+    for mod in ["base"] + ALG:
         tree = ast.parse(open(os.path.join(repo, "src", "pyoma2", "algorithms", f"{mod}.py")).read())
         classes = {c.name: c for c in tree.body if isinstance(c, ast.ClassDef)}
         modfuncs = {f.name: (f, False) for f in tree.body if isinstance(f, ast.FunctionDef)}
+        # module-level statements that rebind an attribute of a class (`Cls.x = ...`, `setattr(Cls, ...)`)
+        patches = {}
+        for st in tree.body:
+            if isinstance(st, (ast.ClassDef, ast.FunctionDef, ast.Import, ast.ImportFrom)):
+                continue
+            for n in ast.walk(st):
+                if isinstance(n, ast.Attribute) and isinstance(n.ctx, (ast.Store, ast.Del)) and isinstance(n.value, ast.Name) and n.value.id in classes:
+                    patches.setdefault(n.value.id, []).append(n.attr)
+                if isinstance(n, ast.Call) and isinstance(n.func, ast.Name) and n.func.id in ("setattr", "delattr") and n.args \
+                        and isinstance(n.args[0], ast.Name) and n.args[0].id in classes:
+                    a1 = n.args[1] if len(n.args) > 1 else None
+                    patches.setdefault(n.args[0].id, []).append(a1.value if isinstance(a1, ast.Constant) and isinstance(a1.value, str) else "<setattr>")
 
         def methods_of(cname, seen=()):
             """own methods first, then those of base classes defined in the same module"""
@@ -317,21 +427,33 @@ def translate(repo):
         for c in tree.body:
             if not isinstance(c, ast.ClassDef):
                 continue
+            classes_out.append({
+                "name": c.name, "module": mod, "bases": [base_name(b) for b in c.bases],
+                "own": bound_names(c) + patches.get(c.name, []), "attrs": class_attrs(c),
+                "extras": [canon(d, {}) for d in c.decorator_list] + [f"{k.arg}={canon(k.value, {})}" for k in c.keywords],
+            })
             helpers = dict(modfuncs)
             for name, m in methods_of(c.name).items():
-                if name not in ("run", "mpe", "mpe_from_plot") and not (name.startswith("__") and name.endswith("__")) and not name.startswith("plot"):
+                if name not in WALKED and not (name.startswith("__") and name.endswith("__")) and not name.startswith("plot"):
                     helpers["self." + name] = (m, True)
             for m in c.body:
-                if isinstance(m, ast.FunctionDef) and m.name in ("run", "mpe", "mpe_from_plot"):
+                if isinstance(m, ast.FunctionDef) and (m.name in WALKED or m.name.startswith("plot")):
                     w = Walker(sigs, c.name, m.name, helpers)
-                    w.body(m.body, {})
-                    sites += w.sites
-                    for (t, v, p) in w.stores:
-                        stores.append((c.name, m.name, t, v, p))
+                    w.top(m.body)
+                    if mod != "base":
+                        sites += w.sites
+                        for (t, v, p) in w.stores:
+                            stores.append((c.name, m.name, t, v, p))
+                    methods_out.append({"cls": c.name, "method": m.name, "guard": w.guard, "pre": w.pre,
+                                        "decorators": [canon(d, {}) for d in m.decorator_list]})
     out = ["/-! GENERATED by harness/translate_wiring.py from /repo/src/pyoma2/algorithms — do not edit. -/", "namespace PV.Wiring.Gen", "",
            "structure Site where", "  cls : String", "  method : String", "  callee : String", "  idx : Nat", "  pos : Nat", "  bind : List (String × String)",
            "  ret : List String", "deriving DecidableEq, Repr", "",
            "structure Store where", "  cls : String", "  method : String", "  target : String", "  value : String", "  pos : Nat", "deriving DecidableEq, Repr", "",
+           "structure ClassInfo where", "  name : String", "  module : String", "  bases : List String", "  own : List String",
+           "  attrs : List (String × String)", "  extras : List String", "deriving DecidableEq, Repr", "",
+           "structure MethodInfo where", "  cls : String", "  method : String", "  guardKind : String", "  guardArg : String", "  guardPos : Nat",
+           "  pre : List String", "  decorators : List String", "deriving DecidableEq, Repr", "",
            "def sites : List Site := ["]
     rows = []
     for s in sites:
@@ -343,15 +465,26 @@ def translate(repo):
     out.append("def stores : List Store := [")
     out.append(",\n".join(f"  {{ cls := {lean_str(a)}, method := {lean_str(b)}, target := {lean_str(t)}, value := {lean_str(v)}, pos := {p} }}" for (a, b, t, v, p) in stores) + "]")
     out.append("")
+    ls = lambda xs: "[" + ", ".join(lean_str(x) for x in xs) + "]"  # noqa: E731
+    out.append("def classes : List ClassInfo := [")
+    out.append(",\n".join(
+        f"  {{ name := {lean_str(c['name'])}, module := {lean_str(c['module'])}, bases := {ls(c['bases'])},\n    own := {ls(c['own'])},\n"
+        f"    attrs := [{', '.join(f'({lean_str(k)}, {lean_str(v)})' for k, v in c['attrs'])}], extras := {ls(c['extras'])} }}" for c in classes_out) + "]")
+    out.append("")
+    out.append("def methods : List MethodInfo := [")
+    out.append(",\n".join(
+        f"  {{ cls := {lean_str(m['cls'])}, method := {lean_str(m['method'])}, guardKind := {lean_str(m['guard'][0])}, guardArg := {lean_str(m['guard'][1])}, "
+        f"guardPos := {m['guard'][2]}, pre := {ls(m['pre'])}, decorators := {ls(m['decorators'])} }}" for m in methods_out) + "]")
+    out.append("")
     out.append("end PV.Wiring.Gen")
-    return "\n".join(out) + "\n", {"sites": len(sites), "stores": len(stores)}
+    return "\n".join(out) + "\n", {"sites": len(sites), "stores": len(stores), "classes": len(classes_out), "methods": len(methods_out)}
 
 
 def write(repo, lean_dir):
     path = os.path.join(lean_dir, "PyomaVerif", "Generated", "Wiring.lean")
     try:
         text, summary = translate(repo)
-    except (SyntaxError, OSError, IndexError, KeyError) as e:
+    except (SyntaxError, OSError, IndexError, KeyError, AttributeError, TypeError, ValueError) as e:
         return False, f"wiring translator failed closed: {e}", {}
     old = open(path).read() if os.path.exists(path) else None
     if old != text:
